@@ -17,6 +17,7 @@ import re
 
 import py4hw
 from mc import core, progen
+from mc.props.c19 import normalise as c19norm
 from mc.props import c01
 from mc.vlog import sim as V
 from mc.vlog.lexer import VlogError, ParseError
@@ -30,8 +31,12 @@ RULE = ('program = behavioural class (library block or generated from the gramma
 ASSUMPTIONS = ['same Verilog engine assumptions as C01',
                'domain membership is decided by an interpreter of the generated Python body (mc/progen.Interp), cross-checked against the py4hw run',
                'library blocks are assumed in-domain while all their integer attributes stay in [0, 2**32)',
-               'a refusal is any exception raised by the generator']
-BOUNDS = {'quick': 'library blocks + depth-1 expressions in 6 templates + 25 statement-structure programs at one width combination; state cap 400 per program',
+               'a refusal is any exception raised by the generator',
+               'text requested from an instance that has already been simulated (4 cycles) must still describe the block from power-up: when it '
+               'differs from the first text beyond instance ids it is compared with a fresh py4hw block over every input sequence of length <= 3',
+               'probe programs use constructs outside the subset (/, **, chained comparisons, min/max/abs, unary +, in): refusal is the expected '
+               'answer; if text is returned it must behave like the Python (floats only flow into comparisons)']
+BOUNDS = {'quick': 'library blocks + depth-1 expressions in 6 templates + 30 statement-structure programs + 42 must-refuse probes at one width combination; state cap 400 per program',
           'thorough': 'adds depth-2 expressions (every operator pair in both nesting positions) and 4 width combinations; state cap 2000'}
 CHUNK = 30
 
@@ -199,12 +204,14 @@ def explore_program(label, builder, res, cap, interp=None, alphabets=None, desc=
             viol('illegal_text:%s:%s' % (rule, norm_msg(msg)), {'rule': rule, 'message': msg, 'text': text[-1500:]})
         return
 
+    late = {}
+
     def mk():
         hw, ins, outs, dut = builder()
         c = types.SimpleNamespace(sys=hw, free=[w for _, w in ins], in_names=['w_' + w.name for _, w in ins],
                                   out_wires=[w for _, w in outs], out_names=['w_' + w.name for _, w in outs], dut=dut)
         c.sim = hw.getSimulator()
-        c.design = V.elaborate(c01.generate(hw), external=c.in_names)
+        c.design = V.elaborate(late['text'] if late else c01.generate(hw), external=c.in_names)
         c.v = V.Sim(c.design)
         c.vscope = c.design.top.children[0]
         c.svars = state_vars(dut, c.vscope)
@@ -307,6 +314,42 @@ def explore_program(label, builder, res, cap, interp=None, alphabets=None, desc=
         viol(detail.get('sigkey', 'mismatch'), detail, trace)
     if len(res['samples']) < 1 and ex.sample_traces:
         res['samples'].append({'program': label, 'input_sequence': ex.sample_traces[-1][:5], 'python': desc.get('body') if desc else None})
+    if ex.violations:
+        return
+    # text requested after the block has been simulated for a while still describes the block from power-up: if it differs
+    # from the first text (beyond instance ids), it is compared with a fresh py4hw block over all input sequences of length <= 3
+    warm = [alpha[-1], alpha[len(alpha) // 2], alpha[-1], alpha[1 % len(alpha)]]
+    try:
+        with core.quiet():
+            hw2, ins2, outs2, dut2 = builder()
+            sim2 = hw2.getSimulator()
+            for x in warm:
+                if interp is not None:
+                    interp.run(x[0], x[1], getattr(dut2, 's', None))
+                for (n, w), v in zip(ins2, x):
+                    w.put(v)
+                sim2.clk(1)
+            text2 = c01.generate(hw2)
+    except Exception:
+        core.reset_prepared()
+        return
+    if c19norm(text2) == c19norm(text):
+        return
+    late['text'] = text2
+    try:
+        ex2 = core.Explorer(mk, lambda c: alpha, check, step=step, pre_check=pre_check,
+                            extra_state=lambda c: (c.v.state_key(), c.v.snapshot()),
+                            set_extra=lambda c, e: c.v.restore(e[1]),
+                            key_fn=key_fn, max_states=cap, max_depth=3, validate_every=9)
+        ex2.run()
+    except VlogError as e:
+        viol('late_generation:not_verilog:' + norm_msg(e), {'error': str(e), 'warmup': [list(x) for x in warm], 'text': text2[-1500:]})
+        return
+    res['transitions'] += ex2.transitions
+    for kind, trace, detail in ex2.violations:
+        detail['text'] = text2[-1500:]
+        detail['warmup'] = [list(x) for x in warm]
+        viol('late_generation:' + detail.get('sigkey', 'mismatch'), detail, trace)
 
 
 def run_shard(d):
@@ -358,7 +401,17 @@ def replay(v):
         hw, ins, outs, dut = builder()
         sim = hw.getSimulator()
         text = c01.generate(hw)
-        out = {'program': d, 'verilog': text}
+        warm = (v.get('detail') or {}).get('warmup')
+        if warm:
+            # the text under test is the one requested from a second instance after these warm-up cycles
+            hw2, ins2, outs2, dut2 = builder()
+            sim2 = hw2.getSimulator()
+            for x in warm:
+                for (n, w), val in zip(ins2, x):
+                    w.put(val)
+                sim2.clk(1)
+            text = c01.generate(hw2)
+        out = {'program': d, 'verilog': c19norm(text)}
         try:
             design = V.elaborate(text, external=['w_' + w.name for _, w in ins])
         except VlogError as e:
